@@ -123,6 +123,30 @@ def run(chk):
             d = A.diff_analysis(o, m, compare_hovers=True)
             if d:
                 dis.append((c, {k: o.get(k) for k in ("diags", "symbols", "checkPanic", "symbolsPanic")}, m, d))
+    # the same texts through the language server (didOpen / didChange with their diagnostics published, symbols, hover and
+    # definition at a few positions): the editor-facing layer must survive them as well
+    import check_c19 as L
+    step = max(1, len(cases) // chk.size(700, 6000))
+    ljobs, ltexts = [], []
+    for c in cases[::step]:
+        t = c["script"]
+        ps = c["positions"][:: max(1, len(c["positions"]) // 6)][:6]
+        reqs = [L.req_open(L.URIS[0], t), L.req_sym(L.URIS[0])]
+        for p_ in ps:
+            reqs += [L.req_hover(L.URIS[0], p_), L.req_def(L.URIS[0], p_)]
+        reqs += [L.req_change(L.URIS[0], t + " "), L.req_sym(L.URIS[0])]
+        ljobs.append({"id": len(ljobs), "op": "lsp", "history": reqs})
+        ltexts.append(t)
+    louts = runner.run_go(ljobs)
+    stats["lsp_sessions"] = len(ljobs)
+    for t, o in zip(ltexts, louts):
+        steps = o.get("steps")
+        if steps is None:
+            fails.append(({"script": t}, {"lsp": str(o)[:300]}, None, ["the language server session crashed on this text"]))
+            continue
+        bad = [st_["panic"][:160] for st_ in steps if "panic" in st_]
+        if bad:
+            fails.append(({"script": t}, {"lsp": bad[:2]}, None, ["the language server panics on this text: %s" % bad[0]]))
     # where the parse diagnostics are: lexer errors and candidate positions of syntax errors (Model/LexAll.lean)
     import lex_model
     ldis, lstats = lex_model.compare([c["script"] for c in cases], gos)
